@@ -204,20 +204,30 @@ class SubclassJSONSerializer:
         if not fully_qualified_class_name:
             raise MissingTypeError()
 
+        if not isinstance(fully_qualified_class_name, str):
+            raise InvalidTypeFormatError(fully_qualified_class_name)
+
         try:
             module_name, class_name = fully_qualified_class_name.rsplit(".", 1)
         except ValueError as exc:
             raise InvalidTypeFormatError(fully_qualified_class_name) from exc
 
+        if not module_name or module_name.startswith("."):
+            # an empty or relative module name can never be imported
+            raise InvalidTypeFormatError(fully_qualified_class_name)
+
         try:
             module = importlib.import_module(module_name)
-        except ModuleNotFoundError as exc:
+        except ImportError as exc:
             raise UnknownModuleError(module_name) from exc
 
         try:
             target_cls = getattr(module, class_name)
         except AttributeError as exc:
             raise ClassNotFoundError(class_name, module_name) from exc
+
+        if not isinstance(target_cls, type):
+            raise ClassNotFoundError(class_name, module_name)
 
         if issubclass(target_cls, SubclassJSONSerializer):
             return target_cls._from_json(data, **kwargs)
